@@ -42,5 +42,6 @@ instance : NumOps Int where
   fmtG := fmtInt
   parse := parseInt
   fmtGeneral := fmtInt
+  maxFloat := 1000000000000
 
 end XlModel.Calc.IntInst
